@@ -12,7 +12,7 @@ from vf import automata, contracts, drivers, recipes
 PROPERTY = "C20"
 LEVEL = "exploration"
 SHARDS = {"quick": 4, "thorough": 16}
-REQUIRED = ["bare-vs-wrapped", "invoked-exactly-once", "edit-one-header", "inner-error", "wrapped-protocol"]
+REQUIRED = ["bare-vs-wrapped", "invoked-exactly-once", "edit-one-header", "inner-error", "wrapped-protocol", "close-propagation"]
 RULE = ("Inner applications = generated response recipes of every class (several cookies, repeated/appended headers, unknown statuses, 0/1/many-chunk streams, SSE, "
         "files incl. 0-byte and ranges) used directly or behind request_response, plus raw gateway apps (list / tuple / generator / custom iterable bodies, one or many "
         "ASGI body events, repeated headers, odd reason phrases), plus apps raising before / after start or mid-body; wrapped in identity `middleware` stacks of depth "
@@ -32,7 +32,7 @@ def obs(iface, app, req):
         r = drivers.run_wsgi_guarded(app, drivers.to_environ(req))
         hdrs = drivers.norm_headers_wsgi(r.headers) if r.headers is not None else None
         return {"status": r.code, "headers": mask(hdrs), "body": r.body, "exc": r.exc, "events": r.events, "raw": r}
-    r = drivers.run_asgi(app, drivers.to_scope(req))
+    r = drivers.run_asgi(app, drivers.to_scope(req), drivers.body_messages(req.chunks) if req.chunks else None)
     hdrs = drivers.norm_headers_asgi(r.headers) if r.headers is not None else None
     return {"status": r.status, "headers": mask(hdrs), "body": r.body, "exc": r.exc, "events": r.sent, "raw": r}
 
@@ -189,10 +189,39 @@ def compare(ctx, iface, recipe, wrapper, depth, req_desc, bare, wrapped, count, 
         ctx.violation(f"wrapped-protocol|{w}|{iface}", case, d)
 
 
+def close_propagation(ctx, rng):
+    """the server abandons a WSGI response after k chunks and calls close(): the inner application's iterable must be
+    closed behind the middleware exactly as it is without it (PEP 3333: the only way the application learns about it)"""
+    from baize import wsgi
+    n = rng.randrange(2, 6)
+    k = rng.randrange(0, n)
+    depth = rng.randrange(1, 4)
+    wrapper = rng.choice(["middleware", "edit"])
+    case = {"inner": "raw WSGI app returning an iterator object with close()", "chunks": n, "server_closes_after": k, "wrapper": wrapper, "depth": depth}
+    closed = {}
+    for variant in ("bare", "wrapped"):
+        marks = {}
+        app = recipes.app_from(wsgi, {"app": "raw", "status": 200, "headers": [("Content-Type", "text/plain")], "chunks": [b"c%d" % i for i in range(n)], "shape": "closing"}, marks)
+        if variant == "wrapped":
+            m = {"middleware": identity_middleware, "edit": edit_middleware}[wrapper](wsgi, "wsgi")
+            for _ in range(depth):
+                app = m(app)
+        r = drivers.run_wsgi(app, drivers.to_environ(drivers.Req()), close_after=k if k else None)
+        if k == 0:
+            pass  # k = 0: read to the end, then close()
+        closed[variant] = (marks.get("closed", 0), r.exc)
+    ctx.mon("close-propagation")
+    if closed["bare"][0] != 1 or closed["bare"][1] is not None:
+        raise drivers.HarnessError(f"bare run did not close the inner iterable once: {closed['bare']}")
+    if closed["wrapped"] != closed["bare"]:
+        ctx.violation(f"inner-iterable-close-not-propagated|wsgi|{wrapper}", case, f"bare: close() x{closed['bare'][0]}; wrapped: close() x{closed['wrapped'][0]} exc={closed['wrapped'][1]!r}")
+    return case
+
+
 def run_case(ctx, recipe, req_desc, rng):
     from baize import asgi, wsgi
     method, headers = req_desc
-    req = drivers.Req(method=method, headers=headers)
+    req = drivers.Req(method=method, headers=headers, chunks=[b"pay", b"load"] if recipe.get("reads_body") else ())
     nt = False
     for iface, ns in (("wsgi", wsgi), ("asgi", asgi)):
         def inner(counter):
@@ -260,7 +289,7 @@ def run(ctx):
         if r < 0.55:
             rec = recipes.gen_response(rng, files, allow_raise=rng.random() < 0.3)
         elif r < 0.75:
-            rec = {"app": "view", "response": recipes.gen_response(rng, files)}
+            rec = {"app": "view", "response": recipes.gen_response(rng, files), "reads_body": rng.random() < 0.3}
         else:
             rec = recipes.gen_raw(rng)
             if rng.random() < 0.2:
@@ -270,6 +299,9 @@ def run(ctx):
         is_file = (rec.get("cls") or rec.get("response", {}).get("cls")) == "File"
         rh = rng.choice(recipes.RANGE_HEADERS) if is_file else None
         todo.append((rec, (rng.choice(["GET", "GET", "HEAD"]), [("Range", rh)] if rh is not None else [])))
+    for i in range(ctx.scale(150, 6000)):
+        case = close_propagation(ctx, rng)
+        ctx.case(repr(case))
     for i, (rec, rq) in enumerate(todo):
         nt = run_case(ctx, rec, rq, rng)
         ctx.case((repr(rec), repr(rq)) if nt else None)
